@@ -12,7 +12,7 @@ import (
 
 func init() {
 	register(&PropInfo{
-		ID: "C19", Level: "other", MinObls: 12,
+		ID: "C19", Level: "other", MinObls: 10,
 		Explanation: "Schedules are not decidable statically; decided are the structural necessary conditions: R1 the relay starts exactly two copier goroutines, each forwards with io.Copy in its own direction (crossed), each defers Close of BOTH connections and wg.Done, the error channel's capacity covers every send so no copier can block, and the relay returns only after wg.Wait(); " +
 			"R2 every function that reports a handler start defers the matching finish before any return, and numHandlers is written only by the monitor loop; R3 check-before-blocking: in the monitor loop no path from entry or from an update of numHandlers reaches the blocking select without evaluating the zero-handler exit condition.",
 		NotCovered: []string{"all interleavings of the two copiers and of handler events (schedules)", "prefix/order of forwarded bytes beyond 'io.Copy is used' (library semantics)", "signal delivery"},
@@ -21,10 +21,19 @@ func init() {
 	})
 }
 
+var goArgBinding = map[*ssa.Parameter]ssa.Value{}
+
 // cellParam resolves a closure free variable (a captured cell) to the
 // parameter/value stored in it by the enclosing function.
 func cellValue(p *Prog, v ssa.Value) ssa.Value {
 	v = unspill(v)
+	// a parameter of a function started with `go f(args)`: the argument
+	if prm, isParam := v.(*ssa.Parameter); isParam {
+		if a, ok := goArgBinding[prm]; ok {
+			return cellValue(p, stripConv(a))
+		}
+		return v
+	}
 	u, ok := v.(*ssa.UnOp)
 	if !ok || u.Op != token.MUL {
 		return v
@@ -87,12 +96,24 @@ func c19Relay(c *Ctx, p *Prog, cl *ssa.Function, ob *Obligation) {
 			ob.Violate("a copier is started inside a loop")
 			return
 		}
-		mc, ok := g.Call.Value.(*ssa.MakeClosure)
-		if !ok {
-			ob.Violate("a copier is not a closure of copyLoop")
+		var fn *ssa.Function
+		switch x := g.Call.Value.(type) {
+		case *ssa.MakeClosure:
+			fn = x.Fn.(*ssa.Function)
+		case *ssa.Function:
+			// a function (literal without captures, or a named helper) started with its
+			// operands as arguments
+			fn = x
+			for i, prm := range fn.Params {
+				if i < len(g.Call.Args) {
+					goArgBinding[prm] = g.Call.Args[i]
+				}
+			}
+		}
+		if fn == nil || len(fn.Blocks) == 0 || !p.inModule(fn) {
+			ob.Violate("a copier is not a function of this module started directly by copyLoop")
 			return
 		}
-		fn := mc.Fn.(*ssa.Function)
 		closures = append(closures, fn)
 		c.Touch(p.FuncKey(fn))
 		copies := p.CallsIn(fn, "io.Copy")
@@ -179,9 +200,18 @@ func c19Relay(c *Ctx, p *Prog, cl *ssa.Function, ob *Obligation) {
 		capv, _ = intConst(mk.Size)
 	}
 	adds := p.CallsIn(cl, "(*sync.WaitGroup).Add")
+	// the WaitGroup count: the constants added outside loops (Add(2), or one Add(1) per copier)
 	addN := int64(-1)
-	if len(adds) == 1 {
-		addN, _ = intConst(adds[0].Common().Args[1])
+	if len(adds) >= 1 {
+		addN = 0
+		for _, ad := range adds {
+			k, ok := intConst(ad.Common().Args[1])
+			if !ok || blockOnCycle(ad.Block()) {
+				addN = -1
+				break
+			}
+			addN += k
+		}
 	}
 	switch {
 	case mk == nil:
@@ -384,11 +414,26 @@ func c19Wait(c *Ctx, p *Prog) {
 	okRet := false
 	for _, r := range returnsOf(w) {
 		fs := ff.NC(r.Block())
-		if hasFact(fs, func(f Fact) bool { return f.Cond == ssa.Value(w.Params[1]) && f.Pol }) &&
-			hasFact(fs, func(f Fact) bool {
+		// in every way the conditions of this return can have come about (a merged
+		// "!flag || n != 0" loop condition is taken apart), the flag is set and the count is zero
+		okAll := true
+		for _, alt := range ff.Alternatives(fs, 0) {
+			okFlag := hasFact(alt, func(f Fact) bool { return f.Cond == ssa.Value(w.Params[1]) && f.Pol })
+			okZero := hasFact(alt, func(f Fact) bool {
 				bo, ok := f.Cond.(*ssa.BinOp)
-				return ok && f.Pol && bo.Op == token.EQL && isFieldLoad(bo.X, "obfs4proxy.termMonitor", "numHandlers")
-			}) {
+				if !ok || !isFieldLoad(bo.X, "obfs4proxy.termMonitor", "numHandlers") {
+					return false
+				}
+				if k, isK := intConst(bo.Y); !isK || k != 0 {
+					return false
+				}
+				return (bo.Op == token.EQL && f.Pol) || (bo.Op == token.NEQ && !f.Pol)
+			})
+			if !okFlag || !okZero {
+				okAll = false
+			}
+		}
+		if okAll {
 			if !canReachWithout(flagIf, r, map[ssa.Instruction]bool{sel: true}) {
 				continue
 			}
